@@ -58,6 +58,9 @@ func scenarios(c *vlib.Ctx) []*slib.Scn {
 		add("tracer", log.C20Params{Producers: [][]string{{"T:s1", "i:a"}, {"i:b", "T:s2"}}, Sched: sched, Triggers: 1, Level: "t", Buf: 2, Shutdown: -1}, b)
 		add("tracer", log.C20Params{Producers: [][]string{{"T:s1", "T:s2", "T:s3"}}, Sched: sched, Triggers: 1, Level: "t", Buf: 2, Shutdown: 2}, b)
 		add("tracer", log.C20Params{Producers: [][]string{{"T:s1", "i:a"}}, Sched: sched, Triggers: 1, Level: "i", Buf: 2, Shutdown: -1}, b)
+		// a plain line and the main line of a tracer submission with the same text from the same call site must not be merged
+		add("tracer", log.C20Params{Producers: [][]string{{"N:x", "T:x", "N:x"}}, Sched: sched, Triggers: 1, Level: "t", Buf: 4, Shutdown: -1}, b)
+		add("tracer", log.C20Params{Producers: [][]string{{"T:x", "N:x"}, {"i:y"}}, Sched: sched, Triggers: 1, Level: "t", Buf: 4, Shutdown: -1}, b)
 	}
 	// the real buffer size once: more lines than the 1024-entry buffer holds, writer externally scheduled and never triggered
 	big := make([]string, 1030)
